@@ -63,10 +63,29 @@ type Gen struct {
 	forN        int
 	cfgSeed     uint64
 	pendingMeta *CfgMeta
+	prioBase    int64 // C07: all priorities of the case are shifted to one end of the int32 range
 }
 
 func NewGen(r *Rng, m *CfgMeta, e *Engine, p *Profile) *Gen {
-	return &Gen{R: r, M: m, E: e, P: p, apps: map[string]*gApp{}}
+	g := &Gen{R: r, M: m, E: e, P: p, apps: map[string]*gApp{}}
+	if p.Cfg.Priorities {
+		// three in ten cases live at the bottom of the int32 priority range, a tenth at the top: ranks computed from
+		// priority and queue offsets then leave the int32 range and must neither wrap nor be clamped
+		switch x := r.Intn(10); {
+		case x < 3:
+			g.prioBase = -2147483648
+		case x == 3:
+			g.prioBase = 2147483647 - 4
+		}
+	}
+	return g
+}
+
+func (g *Gen) shiftPrio(p int32) int32 {
+	if g.prioBase == 0 || p < 0 || p > 4 {
+		return p
+	}
+	return int32(g.prioBase + int64(p))
 }
 
 func sortedKeys[T any](m map[string]T) []string {
@@ -259,7 +278,12 @@ func (g *Gen) make(kind string) *Op {
 		if ga := g.apps[a]; ga != nil && ga.Gang {
 			return nil
 		}
-		return &Op{Kind: kind, App: a, Key: g.newKey(a), Node: n, Res: g.askRes(), Prio: int32(r.Intn(3))}
+		bop := &Op{Kind: kind, App: a, Key: g.newKey(a), Node: n, Res: g.askRes(), Prio: int32(r.Intn(3))}
+		if g.P.Cfg.Priorities && r.Chance(100) {
+			bop.Prio = extremePrio(r)
+		}
+		bop.Prio = g.shiftPrio(bop.Prio)
+		return bop
 	case OpBindAsk:
 		k := r.Pick(g.keysIn(PhPending))
 		n := r.Pick(g.liveNodes())
@@ -446,6 +470,10 @@ func (g *Gen) makeAsk() *Op {
 	if r.Chance(400) {
 		op.Prio = int32(r.Range(0, 4))
 	}
+	if g.P.Cfg.Priorities && r.Chance(100) {
+		op.Prio = extremePrio(r)
+	}
+	op.Prio = g.shiftPrio(op.Prio)
 	if r.Chance(500) {
 		op.PreemptOther = true
 	}
@@ -549,4 +577,10 @@ func (g *Gen) typeChangeWithApps(m *CfgMeta) bool {
 		}
 	}
 	return false
+}
+
+// extremePrio returns a priority at or near the ends of the int32 range: the priority calculus of preemption (offsets
+// added and subtracted along queue paths) must not wrap or clamp there.
+func extremePrio(r *Rng) int32 {
+	return []int32{-2147483648, -2147483647, -2147483645, -2000000000, 2147483647, 2147483646, 2000000000}[r.Intn(7)]
 }
